@@ -46,6 +46,9 @@ TEXT = {
  "C17": ("BFS to a fixpoint on the full internal state of the real PushBuffer for each capacity and kind against a bounded VecDeque, plus depth-bounded BFS of INPUT/OUTPUT instruction histories through the real interpreter step.",
          "Trusted: the VecDeque reference and the io rows of harness/src/refmodel.rs.",
          "explicit-state BFS (fixpoint on internal state; depth-bounded for instruction histories) against a reference model"),
+ "C18": ("Explicit-state BFS over Graph API histories and over GRAPH.* instruction histories on the real code, every transition compared with a set-based model plus structural invariants, snapshot independence and diff emptiness.",
+         "Trusted: model_apply / check_graph in harness/src/c18.rs and the graph rows of refmodel.rs.",
+         "explicit-state BFS with canonical-state dedup over the real transition function against a set-based reference model"),
  "C19": ("Every stack-id vector up to length K x populated states x positions: LIST.* by name against the reference rows, with conservation and LIST.ADD/LIST.GET/execute round-trip oracles.",
          "Trusted: LIST rows of refmodel.rs.",
          "exhaustive enumeration of id vectors / positions against a reference model + conservation invariant"),
